@@ -131,14 +131,10 @@ func (lg *ledger) collect() []obligation {
 				// make([]T, n, m) panics for n < 0 or m < n ("len/cap out of range"); a size that is not a
 				// constant has to be known non-negative (a length, a count), and the capacity at least the length
 				nonNeg := func(v ssa.Value) (bool, string) {
-					if c, isC := v.(*ssa.Const); isC && c.Value != nil && constant.Sign(c.Value) >= 0 {
+					if lg.sizeNonNeg(v, blk, nil, map[ssa.Value]bool{}, 0) {
 						return true, ""
 					}
-					tb, to := lg.term(v)
-					if entails(lg.subFacts(lg.boundFacts(blk)), "0", tb, to) {
-						return true, ""
-					}
-					return false, lg.key(v) + " may be negative"
+					return false, "the size " + short80(v.String()) + " may be negative"
 				}
 				_, lenConst := x.Len.(*ssa.Const)
 				_, capConst := x.Cap.(*ssa.Const)
@@ -152,6 +148,9 @@ func (lg *ledger) collect() []obligation {
 						}
 						if ok, why := nonNeg(x.Cap); !ok {
 							return false, why
+						}
+						if c, isC := x.Len.(*ssa.Const); isC && c.Value != nil && constant.Sign(c.Value) == 0 {
+							return true, ""
 						}
 						lb, lo := lg.term(x.Len)
 						cb, co := lg.term(x.Cap)
@@ -183,6 +182,121 @@ func (lg *ledger) collect() []obligation {
 		}
 	}
 	return out
+}
+
+func short80(s string) string {
+	if len(s) > 80 {
+		return s[:80] + "..."
+	}
+	return s
+}
+
+// sizeNonNeg: v, used as the size of a make, is not negative. Decided on the value graph: constants, lengths and
+// counts, what the dominating comparisons give, max with one such operand (min with all), sums, products,
+// quotients, remainders of such values, every input of a phi (a value that is being defined is assumed: a
+// counter that is only added to), and the results of a function of this module judged in its body with its
+// parameters standing for the arguments of this call. A difference is non-negative only if the comparisons
+// say so; the result of a dynamic call (the Len() of an iterator handed in from outside) and a parameter
+// nobody vouches for are not. Assumption: sums and products of lengths do not overflow.
+func (lg *ledger) sizeNonNeg(v ssa.Value, blk *ssa.BasicBlock, env map[*ssa.Parameter]ssa.Value, seen map[ssa.Value]bool, depth int) bool {
+	if v == nil || depth > 12 {
+		return false
+	}
+	if seen[v] {
+		return true
+	}
+	seen[v] = true
+	defer delete(seen, v)
+	if c, isC := v.(*ssa.Const); isC {
+		return c.Value != nil && c.Value.Kind() == constant.Int && constant.Sign(c.Value) >= 0
+	}
+	if env == nil && v.Parent() == lg.fn {
+		tb, to := lg.term(v)
+		if entails(lg.subFacts(lg.boundFacts(blk)), "0", tb, to) {
+			return true
+		}
+	}
+	switch x := v.(type) {
+	case *ssa.Parameter:
+		if a, ok := env[x]; ok {
+			return lg.sizeNonNeg(a, blk, nil, seen, depth+1)
+		}
+		return false
+	case *ssa.Phi:
+		for _, e := range x.Edges {
+			if !lg.sizeNonNeg(e, blk, env, seen, depth+1) {
+				return false
+			}
+		}
+		return true
+	case *ssa.BinOp:
+		switch x.Op {
+		case token.ADD, token.MUL, token.QUO, token.REM, token.AND, token.SHR:
+			return lg.sizeNonNeg(x.X, blk, env, seen, depth+1) && lg.sizeNonNeg(x.Y, blk, env, seen, depth+1)
+		}
+		return false
+	case *ssa.Convert:
+		if isIntType(x.X.Type()) && isIntType(x.Type()) {
+			if b, ok := x.Type().Underlying().(*types.Basic); ok && (b.Kind() == types.Int || b.Kind() == types.Int64) {
+				return lg.sizeNonNeg(x.X, blk, env, seen, depth+1)
+			}
+		}
+		return false
+	case *ssa.ChangeType:
+		return lg.sizeNonNeg(x.X, blk, env, seen, depth+1)
+	case *ssa.Call:
+		if b, ok := x.Call.Value.(*ssa.Builtin); ok {
+			switch b.Name() {
+			case "len", "cap":
+				return true
+			case "max":
+				for _, a := range x.Call.Args {
+					if lg.sizeNonNeg(a, blk, env, seen, depth+1) {
+						return true
+					}
+				}
+				return false
+			case "min":
+				for _, a := range x.Call.Args {
+					if !lg.sizeNonNeg(a, blk, env, seen, depth+1) {
+						return false
+					}
+				}
+				return true
+			}
+			return false
+		}
+		switch pureCallName(x) {
+		case "Len", "Type.NumIn":
+			return true
+		}
+		if pkg, name := staticCalleeName(x); (pkg == "reflect" && (name == "(Value).Cap" || name == "(Value).NumField" || name == "(Value).NumMethod")) || (pkg == "strings" && name == "Count") {
+			return true
+		}
+		cal := x.Call.StaticCallee()
+		if cal == nil || !inModule(cal) || len(cal.Blocks) == 0 || cal.Signature.Results().Len() != 1 || depth > 4 {
+			return false
+		}
+		sub := map[*ssa.Parameter]ssa.Value{}
+		if env == nil {
+			for i, prm := range cal.Params {
+				if i < len(x.Call.Args) {
+					sub[prm] = x.Call.Args[i]
+				}
+			}
+		}
+		nret := 0
+		for _, b := range cal.Blocks {
+			if ret, ok := b.Instrs[len(b.Instrs)-1].(*ssa.Return); ok && len(ret.Results) == 1 {
+				nret++
+				if !lg.sizeNonNeg(ret.Results[0], blk, sub, seen, depth+2) {
+					return false
+				}
+			}
+		}
+		return nret > 0
+	}
+	return false
 }
 
 func isIntType(t types.Type) bool {
